@@ -336,6 +336,8 @@ pub(crate) fn coalesce_registers(
         }
     }
 
+    #[cfg(fuellabs_sway_verif)]
+    crate::verif_hooks::alloc_coalesce(&final_reg_to_reg_map);
     (reduced_ops, reduced_live_out)
 }
 
@@ -651,6 +653,8 @@ pub(crate) fn allocate_registers(ops: &[Op]) -> Result<Vec<AllocatedAbstractOp>,
                 }
                 try_count += 1;
                 updated_ops = spill(&updated_ops_before_spill, &spills);
+                #[cfg(fuellabs_sway_verif)]
+                crate::verif_hooks::alloc_spill(&updated_ops_before_spill, &spills, &updated_ops);
                 updated_ops_ref = &updated_ops;
             }
         }
@@ -668,6 +672,8 @@ pub(crate) fn allocate_registers(ops: &[Op]) -> Result<Vec<AllocatedAbstractOp>,
         })
     }
 
+    #[cfg(fuellabs_sway_verif)]
+    crate::verif_hooks::alloc_result(updated_ops_ref, &updated_ops, &pool, &buf);
     Ok(buf)
 }
 
